@@ -373,6 +373,27 @@ pub fn gen_ptr(rng: &mut Rng, thorough: bool, em: &mut Emitter) {
     gen(rng, thorough, em);
 }
 
+/// contract-violating scenario: a hint pointer recorded by a call that was rolled back is used
+/// later, when the cursor is exactly at (or just around) the stale position
+fn gen_stale_pointer_session(rng: &mut Rng, em: &mut Emitter) {
+    let mut lab = |n: usize| -> Vec<u8> {
+        let mut v = vec![n as u8];
+        for _ in 0..n { v.push(b'a' + rng.below(26) as u8); }
+        v.push(0);
+        v
+    };
+    let (o, n1, n2, o2, x) = (lab(5), lab(6), lab(40), lab(5), lab(5));
+    let delta = *rng.pick(&[0usize, 0, 0, 1, 2]);          // extra RDATA octets in the filler record
+    let filler: String = std::iter::repeat("00").take(delta).collect();
+    let mode = *rng.pick(&["s", "s", "c"]);
+    let ops = format!(
+        "q:00:1:1;nss:n:{}:2:1:60:{},{}:0;ns:n:{}:65280:1:60:{}:-;ns:x0.0:{}:1:1:60:01020304:-;ns:x0.0:{}:2:1:60:{}:-;fin",
+        hex(&o), hex(&n1), hex(&n2), hex(&o2), if delta == 0 { "-".to_string() } else { filler }, hex(&x), hex(&x), hex(&n1)
+    );
+    let r = exec(200, 60, mode, 0, &ops);
+    em.emit(&format!("w 200 60 {} 0 {}", mode, ops), &r);
+}
+
 pub fn run(op: &str, a: &[&str]) -> Option<String> {
     match (op, a) {
         ("w", [buflen, limit, mode, fill, ops]) => {
@@ -993,6 +1014,10 @@ pub fn gen(rng: &mut Rng, thorough: bool, em: &mut Emitter) {
         let fill = *rng.pick(&[0u8, 0, 0xaa, 0xc0, 0xff, 0x3f, 1]);
         let sh = Shape { buflen, limit, mode, fill, violate, n_ops };
         gen_session(rng, &sh, em, &mut stats);
+    }
+    // 2b. stale hint pointers (contract violation; compared with the model only)
+    for _ in 0..(if thorough { 400 } else { 40 }) {
+        gen_stale_pointer_session(rng, em);
     }
     // 3. sessions that cross POINTER_MAX (0x3fff): a big TXT record first, names afterwards
     let n_big = if thorough { 300 } else { 8 };
